@@ -70,6 +70,19 @@ def layer_rhs2d(ctx, configs=None):
             r.cases += 1; r.disagreements.append(dict(what='rhs2d', input=cfg, reason='implementation raised', detail=st)); continue
         if np.any(st['pL'][0] <= 0) or np.any(st['pR'][0] <= 0) or np.any(st['pL'][2] <= 0) or np.any(st['pR'][2] <= 0) or not all(np.all(np.isfinite(x)) for x in st['res']):
             r.count('skipped-inadmissible-face-state'); continue
+        # the operator is a function of (configuration, field): other evaluations with the same objects do not change it
+        def again():
+            with np.errstate(all='ignore'):
+                disc.rhs(impl.field.fdata(mod, msh, [np.array(d, dtype=float)[..., ::-1] * 1.5 for d in f.data]))
+                c2 = dict(cfg, nx=cfg['ny'], ny=cfg['nx'], lx=cfg['lx'] * 1.5)
+                c2['prim'] = [list(np.asarray(w).reshape(cfg['ny'], cfg['nx']).T.ravel()) for w in cfg['prim']]
+                m2 = impl.mesh2d.mesh2d(c2['nx'], c2['ny'], c2['lx'], c2['ly'])
+                d2 = impl.modeldisc.fvm2dcart(mod, m2, cfg2d.make_scheme2d(cfg['scheme']), {k: dict(v) for k, v in cfg['bc'].items()}, numflux=cfg['flux'])
+                d2.rhs(impl.field.fdata(mod, m2, mod.prim2cons([np.array(c2['prim'][0], dtype=float), np.vstack([c2['prim'][1], c2['prim'][2]]).astype(float), np.array(c2['prim'][3], dtype=float)])))
+            return [np.array(x, dtype=float).copy() for x in disc.rhs(f)]
+        ok2, rep = impl.guarded(again)
+        same2 = ok2 and all(np.array_equal(a, b_, equal_nan=True) for a, b_ in zip(st['res'], rep))
+        r.compare_exact('rhs2d repeatable after other calls on the same model/discretisation objects', dict(cfg=cfg, detail=None if ok2 else rep), bool(same2), True)
         s = cfg['scheme']
         sd = s[0] + (" " + q(s[1]) if len(s) > 1 else "")
         bc = cfg['bc']
